@@ -261,13 +261,33 @@ pub fn set_errno(v: i32) {
 
 // ---------------------------------------------------------------- streams
 
+/// what a codec remembers besides the read buffer (RTU: the record of dropped bytes)
+trait CodecState {
+    fn dropped_len(&self) -> Option<usize> {
+        None
+    }
+}
+impl CodecState for verif_hooks::tcp::ServerCodec {}
+impl CodecState for verif_hooks::tcp::ClientCodec {}
+impl CodecState for verif_hooks::tcp::AduDecoder {}
+impl CodecState for verif_hooks::rtu::ServerCodec {
+    fn dropped_len(&self) -> Option<usize> {
+        Some(verif_hooks::rtu::ServerCodec::dropped_len(self))
+    }
+}
+impl CodecState for verif_hooks::rtu::ClientCodec {
+    fn dropped_len(&self) -> Option<usize> {
+        Some(verif_hooks::rtu::ClientCodec::dropped_len(self))
+    }
+}
+
 fn stream_run<C>(
     codec: C,
     evs: &[ReadEv],
     render: impl Fn(&C::Item) -> String,
 ) -> (Vec<ReadEv>, String)
 where
-    C: Decoder<Error = std::io::Error>,
+    C: Decoder<Error = std::io::Error> + CodecState,
 {
     let io = ScriptedIo::new();
     io.push_reads(evs);
@@ -296,9 +316,13 @@ where
         }
     }
     let buf = framed.read_buffer().len();
+    let dropped = match framed.codec().dropped_len() {
+        Some(n) => format!(" ; dropped {n}"),
+        None => String::new(),
+    };
     let mut delivered = io.take_delivered();
     delivered.extend(io.with(|s| s.reads.drain(..).collect::<Vec<_>>()));
-    (delivered, format!("{} ; buf {}", out.join(" | "), buf))
+    (delivered, format!("{} ; buf {}{dropped}", out.join(" | "), buf))
 }
 
 fn stream_op(codec: &str, evs: &[ReadEv]) -> Option<(String, String)> {
